@@ -1532,6 +1532,10 @@ class CodeGenerator(NodeVisitor):
             self.write(")")
 
     def visit_Output(self, node: nodes.Output, frame: Frame) -> None:
+        # An empty ``{% print %}`` produces no code.
+        if not node.nodes:
+            return
+
         # If an extends is active, don't render outside a block.
         if frame.require_output_check:
             # A top-level extends is known to exist at compile time.
